@@ -521,7 +521,8 @@ def cases_blind(ctx):
                 for ms in _mask_starts(T, none=False):
                     for kind in _KINDS:
                         n = c()
-                        yield {"att": spec, "bat": bat, "T": T, "dim": dim, "mask": ms, "seed": c.seed(), "f64": n % 2 == 0, "kind": kind, "which": _WHICH[n % 3]}
+                        m = (n - 1) // len(_KINDS)  # kinds cycle fastest; (which, dtype) rotate through their 6 combinations per mask pattern
+                        yield {"att": spec, "bat": bat, "T": T, "dim": dim, "mask": ms, "seed": c.seed(), "f64": m % 2 == 0, "kind": kind, "which": _WHICH[m % 3]}
     if not ctx.quick:
         rng = random.Random(ctx.seed + 2002)
         for i in range(6000):
@@ -540,8 +541,8 @@ def cases_permute(ctx):
                     for pi in range(nperm):
                         if T > 1 and pi == 0:
                             continue  # identity
-                        if T == 4 and (pi + (ms or 0)) % 3:
-                            continue  # T = 4: every permutation and every mask pattern, a third of the pairs
+                        if T == 4 and (pi + (ms or 0)) % 4:
+                            continue  # T = 4: every permutation and every mask pattern, a quarter of the pairs
                         n = c()
                         yield {"att": spec, "bat": bat, "T": T, "dim": dim, "mask": ms, "seed": c.seed(), "f64": n % 2 == 0, "perm": pi}
     if not ctx.quick:
@@ -566,7 +567,7 @@ def cases_broadcast(ctx):
             if not ctx.quick and len(bat) == 3 and spec["fl"] == "mha" and spec["H"] == 3:
                 continue
             for bc in _bc_choices(bat):
-                for T in ((1, 3) if ctx.quick else (1, 2, 4)):
+                for T in ((1, 3) if ctx.quick else (2, 4)):
                     n = c()
                     uses_mask = any("m" in o for o in bc)
                     ms = (n % (2 ** T - 1)) if (uses_mask or n % 3) else None
@@ -692,17 +693,24 @@ FINDINGS = [
     {"id": "KF-C20-3", "property": "C20", "clause": "C20.mha.compose", "what": _MSK, "class": _MSK_CLASS, "witness": _W_MSK},
 ]
 KNOWN_MATCH = {"KF-C20-1": _negdim_class, "KF-C20-2": _bias_class, "KF-C20-3": _mha_mask_class}
-# the same two defects seen through the other clauses (one record per clause because a known finding names one clause)
-for _cl, _extra in (("convex", {"vmode": "const"}), ("blind", {"kind": "zero", "which": "kv", "mask": 0}), ("permute", {"perm": 1}), ("broadcast", None)):
-    if _extra is not None:
-        FINDINGS.append({"id": "KF-C20-1/" + _cl, "property": "C20", "clause": "C20.soft." + _cl, "what": "(same defect as KF-C20-1) " + _NEG, "class": _NEG_CLASS,
-                         "witness": dict(_W_NEG, **_extra)})
-        KNOWN_MATCH["KF-C20-1/" + _cl] = _negdim_class
-for _cl, _extra in (("blind", {"kind": "zero", "which": "kv"}), ("permute", {"perm": 1}), ("broadcast", None)):
-    if _extra is not None:
-        FINDINGS.append({"id": "KF-C20-3/" + _cl, "property": "C20", "clause": "C20.soft." + _cl, "what": "(same defect as KF-C20-3) " + _MSK, "class": _MSK_CLASS,
-                         "witness": dict(_W_MSK, **_extra)})
-        KNOWN_MATCH["KF-C20-3/" + _cl] = _mha_mask_class
+# the same two defects seen through the other clauses (one record per clause because a known finding names one clause;
+# the relational clauses only see them when a wrongly normalised / wrongly masked score column is all -inf, i.e. NaN, or an exception)
+_W_MSK_ID = dict(_W_MSK, att=dict(_W_MSK["att"], vs=2, d_v=2, ident=True))
+for _id, _what, _class, _fn, _wits in (
+        ("KF-C20-1", _NEG, _NEG_CLASS, _negdim_class, {
+            "convex": dict(_W_NEG, vmode="const"),
+            "blind": dict(_W_NEG, mask=0, kind="zero", which="kv"),
+            "permute": dict(_W_NEG, mask=0, perm=1),
+            "broadcast": dict(_W_NEG, bat=[2], mask=1, bc=["m"])}),
+        ("KF-C20-3", _MSK, _MSK_CLASS, _mha_mask_class, {
+            "convex": dict(_W_MSK_ID, vmode="rand"),
+            "blind": dict(_W_MSK, kind="zero", which="kv"),
+            "permute": dict(_W_MSK, perm=1),
+            "broadcast": dict(_W_MSK, bat=[2], bc=["q"])})):
+    for _cl, _w in _wits.items():
+        FINDINGS.append({"id": "%s/%s" % (_id, _cl), "property": "C20", "clause": "C20.soft." + _cl, "what": "(same defect as %s, seen through this clause) %s" % (_id, _what),
+                         "class": _class, "witness": _w})
+        KNOWN_MATCH["%s/%s" % (_id, _cl)] = _fn
 
 CHECKERS = {
     "C20.soft.convex": check_convex,
@@ -762,7 +770,7 @@ def run_bounded(ctx):
                     nontrivial=_masked_somewhere, chunk=128, functions=soft + mha[:1])
     if want("C20.soft.permute"):
         ctx.bounded("C20.soft.permute", check_permute, cases_permute(ctx),
-                    bound="flavours: %s; %s; %s; masks: %s; EVERY non-identity permutation of the T positions (T = 4: every permutation with a third of the mask patterns each); %s%s" % (
+                    bound="flavours: %s; %s; %s; masks: %s; EVERY non-identity permutation of the T positions (T = 4: every permutation with a quarter of the mask patterns each); %s%s" % (
                         fl1, flm, geo, msk, par, rnd % 6000 if rnd else ""),
                     text="output unchanged when key, value and mask are permuted by the same permutation along the sequence dimension",
                     nontrivial=lambda c: c["T"] >= 2, chunk=128, functions=soft + mha[:1])
@@ -770,7 +778,7 @@ def run_bounded(ctx):
         ctx.bounded("C20.soft.broadcast", check_broadcast, cases_broadcast(ctx),
                     bound="flavours: %s; %s; key ranks 3..%d, batch shapes and dims as in the other clauses; per batch dim of size > 1 EVERY choice of which operands have size 1 there "
                           "(none / query / key / value / key+value / mask / query+mask), at least one dim reduced; T in %s; one mask pattern or no mask per case; %s%s" % (
-                              fl1, flm, 4 if q else 5, "{1,3}" if q else "{1,2,4}", par, rnd % 6000 if rnd else ""),
+                              fl1, flm, 4 if q else 5, "{1,3}" if q else "{2,4}", par, rnd % 6000 if rnd else ""),
                     text="result with size-1 (broadcast) query / key / value / mask dims == result on the explicitly expanded contiguous operands, for every legal sequence dim",
                     nontrivial=lambda c: any("q" in o for o in c["bc"]), chunk=128, functions=soft + mha[:1])
     if want("C20.soft.negdim"):
